@@ -16,7 +16,9 @@ const PropertyInfo kInfo = {
     "decrypted frames): an upload (peer, chunk) is running from the CHUNK frame until that peer's ACK for the chunk or start+timeout; at every CHUNK emission the number of running "
     "uploads is <= the overall limit and the peer's running uploads <= the per-peer limit (when non-zero); a REQUEST for an unknown/expired chunk is answered with a negative ACK; "
     "after a tick, a peer with no running upload has no in-use slot (per-peer counter absent/zero, no active entry). A repeated CHUNK for an in-flight (peer, chunk) counts as the "
-    "same upload. Non-trivial: a repeated in-flight (peer, chunk) with per-peer limit != 1, or a timeout release."};
+    "same upload. Every request that is queued (limits reached) must leave the queue through a CHUNK or a negative ACK (the short-lived chunk, TTL 6/10/15 s, becomes unservable while requests for it wait; "
+    "advances also go to its deadline and to deadline - min_manifest_ttl +-1ns); half of the operations address one focus peer, requests prefer chunks that peer is not yet being sent. "
+    "Non-trivial: a repeated in-flight (peer, chunk) with per-peer limit != 1, a timeout release, or a queued request that is refused later."};
 
 namespace {
 using namespace ephemeralnet;
@@ -55,8 +57,12 @@ void run_case(Ctx& c) {
     vnode::QuiesceGuard guard{node, {&peers[0], &peers[1], &peers[2]}};
     // chunks 0..2 long lived, 3 short lived (10 s), 4 never stored
     for (int k = 0; k < 3; ++k) node.store_chunk(cid(k), Prng(40 + k).bytes(32), seconds(80000));
-    node.store_chunk(cid(3), Prng(43).bytes(32), seconds(10));
-    const TP short_deadline = now() + seconds(10);
+    static const int kShortTtl[] = {10, 6, 15, 10};
+    const seconds short_ttl{kShortTtl[t.h(5) % 4]};
+    const int focus = t.h(4) % 3;  // half of the operations go to this peer, so that one peer accumulates several uploads
+    node.store_chunk(cid(3), Prng(43).bytes(32), short_ttl);
+    const TP short_deadline = now() + short_ttl;
+    c.note("short_ttl=%llds focus=p%d", (long long)short_ttl.count(), focus);
 
     std::map<std::pair<int, int>, TP> running;   // (peer, chunk) -> start
     bool dup_seen[3] = {false, false, false};
@@ -65,9 +71,27 @@ void run_case(Ctx& c) {
     };
     auto chunk_index = [&](const ChunkId& id) { for (int k = 0; k < 5; ++k) if (cid(k) == id) return k; return -1; };
 
+    // requests that have been answered neither by a CHUNK nor by a negative ACK yet (they wait in the node's queue)
+    std::set<std::pair<int, int>> waiting;
+    auto still_queued = [&](int p, int k) {
+        for (auto& q : vnode::Access::pending_uploads(node)) if (q.peer_id == peers[p].id && q.chunk_id == cid(k)) return true;
+        return false;
+    };
+    // Every request of a peer with a session is queued by the node and leaves the queue through a CHUNK (upload started) or,
+    // when the node finds it cannot serve the chunk after all, a negative ACK.  A request that is gone from the queue, is not
+    // running and got no negative ACK was dropped silently.
+    auto check_waiting = [&](const char* after) {
+        for (auto it = waiting.begin(); it != waiting.end();) {
+            if (still_queued(it->first, it->second) || running.count(*it)) { ++it; continue; }
+            c.fail("C23:queued-request-dropped-without-answer", std::string("after ") + after + ": the queued request of p" + std::to_string(it->first) + " for c" + std::to_string(it->second) +
+                                                                   " left the queue, but the peer got neither the chunk nor a negative ACK");
+        }
+    };
+    bool chunk_for_request = false;
     // returns per peer whether a negative ack for `want_chunk` was seen
     auto observe = [&](int req_peer, int want_chunk) {
         bool nack = false;
+        chunk_for_request = false;
         for (int p = 0; p < 3; ++p) {
             for (auto& msg : peers[p].drain()) {
                 if (auto* cp = std::get_if<protocol::ChunkPayload>(&msg.payload)) {
@@ -79,6 +103,8 @@ void run_case(Ctx& c) {
                         if (per_peer != 1) c.nt("repeated_inflight_upload");
                     }
                     running[key] = now();
+                    waiting.erase(key);
+                    if (p == req_peer && k == want_chunk) chunk_for_request = true;
                     std::size_t total = running.size(), mine = 0;
                     for (auto& [kk, s] : running) if (kk.first == p) ++mine;
                     if (overall > 0 && total > overall) c.fail("C23:overall-limit-exceeded", std::to_string(total) + " uploads running, limit " + std::to_string(overall));
@@ -86,6 +112,9 @@ void run_case(Ctx& c) {
                     c.label("chunk_sent");
                 } else if (auto* ap = std::get_if<protocol::AcknowledgePayload>(&msg.payload)) {
                     if (p == req_peer && !ap->accepted && chunk_index(ap->chunk_id) == want_chunk) nack = true;
+                    if (!ap->accepted) {
+                        if (waiting.erase({p, chunk_index(ap->chunk_id)})) c.nt("queued_request_refused_later");
+                    }
                 }
             }
         }
@@ -94,7 +123,7 @@ void run_case(Ctx& c) {
 
     for (std::size_t i = 0; i < t.nrec(); ++i) {
         Rec r = t.r(i);
-        int p = r.a(0) % 3;
+        int p = (r.a(0) & 0x80) ? focus : r.a(0) % 3;
         switch (r.op() % 8) {
             case 0: case 1: case 2: {
                 int k = r.a(1) % 8;
@@ -105,12 +134,24 @@ void run_case(Ctx& c) {
                     p = it->first.first;
                     k = it->first.second;
                 }
+                else if ((r.a(2) & 3) == 1) {  // a chunk this peer is not being sent yet
+                    for (int kk = 0; kk < 4; ++kk) {
+                        int cand = (k + kk) % 4;
+                        if (!running.count({p, cand})) { k = cand; break; }
+                    }
+                }
                 c.note("|req(p%d,c%d)", p, k);
                 protocol::Message m{};
                 m.type = protocol::MessageType::Request;
                 m.payload = protocol::RequestPayload{cid(k), peers[p].id};
                 peers[p].deliver(m);
+                const bool was_running = running.count({p, k}) > 0;
                 bool nack = observe(p, k);
+                if (!nack && !chunk_for_request && !was_running) {
+                    if (still_queued(p, k)) { waiting.insert({p, k}); c.label("request_queued"); }
+                    else c.fail("C23:queued-request-dropped-without-answer", "the request of p" + std::to_string(p) + " for c" + std::to_string(k) + " got neither the chunk nor a negative ACK and is not queued");
+                }
+                check_waiting("a request");
                 bool unservable = k == 4 || (k == 3 && now() >= short_deadline);
                 if (unservable) {
                     c.label("unservable_request");
@@ -139,15 +180,21 @@ void run_case(Ctx& c) {
                 m.payload = a;
                 peers[p].deliver(m);
                 observe(-1, -1);
+                check_waiting("an acknowledgement");
                 break;
             }
             case 5: {
                 TP next = TP::max();
                 for (auto& [kk, s] : running) next = std::min(next, s + timeout);
-                unsigned kind = r.a(1) % 5;
+                unsigned kind = r.a(1) % 8;
                 if (next == TP::max() && kind < 3) kind = 3;
                 nanoseconds d{0};
+                const nanoseconds min_ttl = std::chrono::duration_cast<nanoseconds>(node.config().min_manifest_ttl);
                 switch (kind) {
+                    // the short-lived chunk: just before / at the instant its remaining lifetime drops below the minimum manifest TTL, and its deadline
+                    case 5: d = short_deadline - min_ttl - now() + nanoseconds(static_cast<int>(r.a(2) % 3) - 1); break;
+                    case 6: d = short_deadline - min_ttl / 2 - now(); break;
+                    case 7: d = short_deadline - now() + nanoseconds(static_cast<int>(r.a(2) % 3) - 1); break;
                     case 0: d = next - now(); break;
                     case 1: d = next - now() - nanoseconds(1); break;
                     case 2: d = next - now() + nanoseconds(1); break;
@@ -167,6 +214,7 @@ void run_case(Ctx& c) {
                 node.tick();
                 observe(-1, -1);
                 prune_model();
+                check_waiting("a tick");
                 for (int q = 0; q < 3; ++q) {
                     bool any = false;
                     for (auto& [kk, s] : running) if (kk.first == q) any = true;
